@@ -8,7 +8,7 @@ GenInit == Init /\ hist = <<obs>>
 GenNext == Next /\ hist' = Append(hist, obs')
 GenSpec == GenInit /\ [][GenNext]_<<vars, hist>>
 Rejected == obs.a \in {"reply", "replytext", "dreply", "release"} /\ obs.exp.ret = "refused"
-Skel  == <<mode, max, target, own, attached, clen, [h \in 1..MaxH |-> handles[h] # <<>>],
+Skel  == <<mode, max, target, own, attached, clen, [h \in 1..MaxH |-> handles[h] # <<>>], reqs # <<>>,
            Rejected, IF Rejected THEN obs.a ELSE "">>
 Emit  == PrintT(<<"BEHAV", ToJson(hist')>>)
 CMsgDom == {<<0, 2, 104, 105>>, <<>>, <<7>>}
